@@ -1026,5 +1026,89 @@ def c01_media_chain(ctx):
     return _r(ctx)
 
 
-RULES = [c01_media_chain, no_stale, records, chief_ray, parax_eq, invariant_step, parax_linear, crossing, signed_return,
+CONSUMERS_OF_N = ('Paraxial.magnification', 'Paraxial.invariant')
+
+
+def mirror_index(ctx):
+    """'mirrors treated as index sign reversal': after a reflection the ray
+    travels towards -z and every n u product carries the sign of n.  The
+    library reflects with u' = -u - 2y/R and keeps all indices positive, so
+    formulas that multiply slopes by Optic.n() get the wrong sign (or a zero
+    index difference) after an odd number of mirrors."""
+    P = ctx.P
+    res = Result('MIRROR-INDEX', 'quantities of the form n u (magnification, '
+                 'Lagrange invariant, Seidel pre-calculations) use an index '
+                 'that changes sign at every mirror')
+    fn = P.func('Optic.n')
+    res.saw(fn)
+    signed = any(isinstance(x, ast.Attribute) and x.attr == 'is_reflective'
+                 for x in ast.walk(fn.node))
+    consumers = CONSUMERS_OF_N
+    for q in consumers:
+        f = P.func(q)
+        res.saw(f)
+        uses = [c for c in ast.walk(f.node) if isinstance(c, ast.Call) and
+                unparse(c.func) == 'self.optic.n']
+        local_sign = any(isinstance(x, ast.Attribute) and
+                         x.attr == 'is_reflective' for x in ast.walk(f.node))
+        if not uses:
+            res.ok(f'{q}: does not use Optic.n()')
+        elif signed or local_sign:
+            res.ok(f'{q}: index carries the propagation direction')
+        else:
+            res.fail(ctx.finding(
+                'MIRROR-INDEX', f, uses[0],
+                f'{q} multiplies paraxial slopes by Optic.n(), which is '
+                f'positive in every space: after an odd number of mirrors '
+                f'the product n u has the wrong sign (magnification +0.5 '
+                f'instead of -0.5 for a concave mirror, invariant changing '
+                f'sign at each mirror, n\' - n = 0 at a mirror in the Seidel '
+                f'terms)', construct=f'{q}: unsigned index after mirrors'))
+    return res
+
+
+def vertex_curvature(ctx):
+    """the paraxial power of a surface comes from the vertex curvature of the
+    prescribed sag.  For the even asphere z = conic(r) + sum_i C_i r^(2(i+1))
+    the i = 0 term is quadratic, so the vertex curvature is 1/R + 2 C_0; the
+    paraxial trace reads geometry.radius only."""
+    P = ctx.P
+    res = Result('VERTEX-CURVATURE', 'the curvature used by the paraxial trace '
+                 'is the second derivative of the prescribed sag at the vertex '
+                 '(for even aspheres 1/R + 2 c[0])')
+    sg = P.func('EvenAsphere.sag')
+    tp = P.func('Surface._trace_paraxial')
+    res.saw(sg), res.saw(tp)
+    # lowest power of r^2 among the polynomial terms
+    lowest = None
+    for n_ in ast.walk(sg.node):
+        if isinstance(n_, ast.For) and 'enumerate(self.c)' in unparse(n_.iter):
+            for b in ast.walk(n_):
+                if isinstance(b, ast.BinOp) and isinstance(b.op, ast.Pow) and \
+                        unparse(b.left) == 'r2':
+                    e = b.right
+                    if isinstance(e, ast.BinOp) and isinstance(e.op, ast.Add) \
+                            and const_of(e.right) is not None:
+                        lowest = int(const_of(e.right))     # exponent at i = 0
+    if lowest is None:
+        raise AnalysisError('EvenAsphere.sag: polynomial term not recognised')
+    uses_c = any(isinstance(x, ast.Attribute) and x.attr in ('c', 'coefficients')
+                 for x in ast.walk(tp.node))
+    if lowest >= 2 or uses_c:
+        res.ok('the asphere polynomial starts at r^4 (or the paraxial trace '
+               'adds 2 c[0] to the curvature)')
+    else:
+        res.fail(ctx.finding(
+            'VERTEX-CURVATURE', tp, tp.node,
+            'EvenAsphere.sag adds c[0] r^2, which changes the vertex '
+            'curvature to 1/R + 2 c[0]; Surface._trace_paraxial takes the '
+            'power from geometry.radius alone, so every paraxial quantity of '
+            'a lens with c[0] != 0 (bundled AsphericSinglet: f2 25.484 '
+            'instead of 25.715) disagrees with the matrices of the real '
+            'surface', construct='paraxial power ignores the r^2 asphere '
+                                 'coefficient'))
+    return res
+
+
+RULES = [vertex_curvature, mirror_index, c01_media_chain, no_stale, records, chief_ray, parax_eq, invariant_step, parax_linear, crossing, signed_return,
          fno_epd, mag_inv, inverted4, object_position]
